@@ -568,6 +568,7 @@ static int cmd_run(
     Stats total;
     long runs = 0, invalid = 0, nontrivial = 0, others = 0;
     int failures = 0;
+    int unreproducible = 0;
     Hash allhash;
     std::set<std::uint64_t> all_sigs;
     std::map<std::string, long> other_keys;
@@ -702,11 +703,14 @@ static int cmd_run(
                 printf("V %s\n", f.str().c_str());
                 ++failures;
             } else {
-                // the batch died but the run alone does not fail: state leaked
-                // between runs, an infrastructure error, never a violation
+                // the batch died but the run alone does not fail: something
+                // accumulated over several runs of that process. Never a
+                // violation by itself; go on in a fresh process (a run that
+                // fails alone will still be found) and report it at the end
                 printf("X %ld unreproducible failure in batch\n", bad);
                 fflush(stdout);
-                return 2;
+                if (++unreproducible > 20)
+                    return 2;
             }
             i = bad + 1;
         } else if (done || (WIFEXITED(st) && WEXITSTATUS(st) == 0)) {
@@ -745,7 +749,7 @@ static int cmd_run(
             bin.append(reinterpret_cast<const char*>(&sgn), 8);
         write_file(g_sigfile, bin);
     }
-    return failures ? 1 : 0;
+    return failures ? 1 : (unreproducible ? 2 : 0);
 }
 
 static int cmd_replay(const std::string& path, bool verbose) {
